@@ -64,12 +64,13 @@ static void c06_event_recorder(void *d, int c)
     g_nlit++;
 }
 
-extern int g_c06_p_minlen; /* precision of the %p call, defined by spec/c06_pform.h (included after printf_impl.c) */
+extern int g_c06_p_minlen;               /* form of the %p call: precision, flag bits forced on / off; */
+extern unsigned g_c06_p_set, g_c06_p_clr; /* defined by spec/c06_pform.h (included after printf_impl.c) */
 #define C06_WP_PRE(width, prec, ops) ((width) >= 0 && (prec) >= 0 && (((ops) & C06_OPS_PREC) || (prec) == 0))
 #define C06_PRINT_I_PRE(u, is_signed, width, min_len, ops, base)                                              \
     ((width) >= 0 &&                                                                                          \
      (((base) == 16 && (is_signed) == 0 && (min_len) == g_c06_p_minlen &&                       \
-       ((ops) & (C06_OPS_SPEC | C06_OPS_ZERO)) == (C06_OPS_SPEC | C06_OPS_ZERO) && (u) == (size_t)(u)) ||     \
+       ((ops) & g_c06_p_set) == g_c06_p_set && ((ops) & g_c06_p_clr) == 0 && (u) == (size_t)(u)) ||     \
       (C06_WP_PRE(width, min_len, ops) &&                                                                     \
        (((base) == 10 && ((is_signed) == 0 || (is_signed) == 1)) || (((base) == 8 || (base) == 16) && (is_signed) == 0)) && \
        (!((ops) & C06_OPS_UPPER) || ((base) == 16 && (is_signed) == 0)))))
